@@ -14,8 +14,9 @@ def to_coq(cases):
     body, names = [], []
     for c in cases:
         n = c["id"]
-        body.append("Definition k%d := {| k_api := %s; k_redir := %s; k_status := %d; k_loc := %s; k_default := %s |}." % (
-            n, "true" if c["api"] else "false", I.b(c["redir"]), c["status"], I.b(c["location"]), I.b(c["default"])))
+        body.append("Definition k%d := {| k_api := %s; k_redir := %s; k_status := %d; k_loc := %s; k_default := %s; k_suffix := %s |}." % (
+            n, "true" if c["api"] else "false", I.b(c["redir"]), c["status"], I.b(c["location"]), I.b(c["default"]),
+            I.b(c.get("suffix", ""))))
         body.append("Definition r%d := Eval vm_compute in c15_check %d k%d." % (n, n, n))
         names.append("r%d" % n)
     return HEAD + I.header() + "\n" + "\n".join(body) + vlib.results_footer(names)
@@ -142,7 +143,8 @@ def run(out, prelude):
     elif bad:
         out.infra.append("browser spec says same-site where Node resolves to another origin: %s" % [
             bytes.fromhex(h).decode("latin1") for h, _, _ in bad[:5]])
-    followed = set((c["flow"], c["api"], c["redir"]) for c in cases if c["location"] != c["default"])
+    followed = set((c["flow"], c["api"], c["redir"]) for c in cases
+                   if c["location"] != c["default"] and bytes.fromhex(c["location"]) != bytes.fromhex(c["default"]) + bytes.fromhex(c.get("suffix", "")))
     out.cov.update(
         evaluations=len(cases), distinct_nontrivial=len(followed),
         rule="return-target strings from a URL-spelling grammar (schemes, slashes/backslashes, controls, percent "
